@@ -1271,6 +1271,11 @@ class SSHConnection(SSHPacketHandler, asyncio.Protocol):
 
         assert self._trusted_host_keys is not None
 
+        # Keys trusted for a host looked up earlier on this connection (an
+        # earlier host-based authentication attempt naming another client
+        # host) say nothing about this one
+        self._trusted_host_keys = set()
+
         for key in trusted_host_keys:
             self._trusted_host_keys.add(key)
 
